@@ -99,15 +99,15 @@ Definition loop_at (src : text) (awc : bool) (fuel' i : nat) (st : pstate) (errs
   | Some _ =>
       dol rest <- lift (slice_from src i) holding errs;
       let i' := match find is_line_sep rest with Some k => k + i | None => src_len src end in
-      parse_declarations_loop src awc fuel' i' st errs
+      parse_declarations_loop src awc repaired fuel' i' st errs
   | None =>
       if i =? src_len src then TErr errs (mk_error PrematureEnd i) else
       dol sep <- lift (lookahead_is src [c_percent; c_percent] i) holding errs;
       match sep with
       | Some j => dol k <- lift (parse_spaces src j) holding errs; TOk (k, st) errs
       | None =>
-          match parse_declaration src i st errs with
-          | TOk (i', st') errs' => parse_declarations_loop src awc fuel' i' st' errs'
+          match parse_declaration src repaired i st errs with
+          | TOk (i', st') errs' => parse_declarations_loop src awc repaired fuel' i' st' errs'
           | TErr errs' e => TErr errs' e
           | TPanic => TPanic | TFuel => TFuel
           end
@@ -115,21 +115,21 @@ Definition loop_at (src : text) (awc : bool) (fuel' i : nat) (st : pstate) (errs
   end.
 
 Lemma loop_S : forall src awc fuel i j st errs, parse_ws src i = Done j ->
-  parse_declarations_loop src awc (S fuel) i st errs = loop_at src awc fuel j st errs.
+  parse_declarations_loop src awc repaired (S fuel) i st errs = loop_at src awc fuel j st errs.
 Proof. intros src awc fuel i j st errs H. cbn [parse_declarations_loop]. rewrite H. reflexivity. Qed.
 
 (* the loop begins by skipping white space: it does not matter where in it the position is *)
 Lemma loop_ws_same : forall src awc fuel p q st errs, parse_ws src p = parse_ws src q ->
-  parse_declarations_loop src awc fuel p st errs = parse_declarations_loop src awc fuel q st errs.
+  parse_declarations_loop src awc repaired fuel p st errs = parse_declarations_loop src awc repaired fuel q st errs.
 Proof. intros src awc fuel p q st errs H. destruct fuel as [|fuel]; [reflexivity|]. cbn [parse_declarations_loop]. rewrite H. reflexivity. Qed.
 
 Lemma loop_ws_back : forall src awc fuel p k st errs, parse_ws src p = Done k ->
-  parse_declarations_loop src awc fuel k st errs = parse_declarations_loop src awc fuel p st errs.
+  parse_declarations_loop src awc repaired fuel k st errs = parse_declarations_loop src awc repaired fuel p st errs.
 Proof. intros src awc fuel p k st errs H. apply loop_ws_same. rewrite H. eapply parse_ws_idem; eauto. Qed.
 
 Lemma loop_skip : forall src awc fuel pre w r st errs, src = pre ++ w ++ r -> forallb is_ws w = true ->
-  parse_declarations_loop src awc fuel (byte_len pre) st errs =
-  parse_declarations_loop src awc fuel (byte_len pre + byte_len w) st errs.
+  parse_declarations_loop src awc repaired fuel (byte_len pre) st errs =
+  parse_declarations_loop src awc repaired fuel (byte_len pre + byte_len w) st errs.
 Proof.
   intros src awc fuel pre w r st errs Hs Hw. apply loop_ws_same. unfold parse_ws.
   rewrite (slice_from_eq src pre (w ++ r) Hs).
@@ -141,8 +141,8 @@ Qed.
 (* ---- comments, white space between the lines ------------------------------------------------- *)
 Lemma loop_comment : forall src fuel pre body nl r st errs,
   src = pre ++ [c_slash; c_slash] ++ body ++ nl :: r -> no_nl body = true -> is_line_sep nl = true ->
-  parse_declarations_loop src true (S fuel) (byte_len pre) st errs =
-  parse_declarations_loop src true fuel (byte_len pre + byte_len ([c_slash; c_slash] ++ body)) st errs.
+  parse_declarations_loop src true repaired (S fuel) (byte_len pre) st errs =
+  parse_declarations_loop src true repaired fuel (byte_len pre + byte_len ([c_slash; c_slash] ++ body)) st errs.
 Proof.
   intros src fuel pre body nl r st errs Hs Hb Hnl.
   rewrite (loop_S src true fuel (byte_len pre) (byte_len pre)).
@@ -164,8 +164,8 @@ Fixpoint ncomments (items : list ditem) : nat :=
 
 Lemma loop_ditems : forall awc items src fuel pre r st errs,
   src = pre ++ print_ditems items ++ r -> forallb (wf_ditem awc) items = true ->
-  parse_declarations_loop src awc (ncomments items + fuel) (byte_len pre) st errs =
-  parse_declarations_loop src awc fuel (byte_len pre + byte_len (print_ditems items)) st errs.
+  parse_declarations_loop src awc repaired (ncomments items + fuel) (byte_len pre) st errs =
+  parse_declarations_loop src awc repaired fuel (byte_len pre + byte_len (print_ditems items)) st errs.
 Proof.
   intros awc items. induction items as [|it items IH]; intros src fuel pre r st errs Hs Hw.
   - simpl. f_equal. lia.
@@ -196,7 +196,7 @@ Qed.
 Lemma loop_sep : forall awc src pre blanks rest st errs fuel,
   src = pre ++ [c_percent; c_percent] ++ blanks ++ rest ->
   forallb is_space_sep blanks = true -> hd_not is_space_sep rest ->
-  parse_declarations_loop src awc (S fuel) (byte_len pre) st errs =
+  parse_declarations_loop src awc repaired (S fuel) (byte_len pre) st errs =
   TOk (byte_len pre + 2 + byte_len blanks, st) errs.
 Proof.
   intros awc src pre blanks rest st errs fuel Hs Hb Hr.
@@ -237,13 +237,26 @@ Lemma all_ssn_nows : forall ns, forallb is_start_state_name ns = true -> forallb
 Proof. intros ns. apply forallb_imp. exact ssn_nows. Qed.
 
 Lemma print_more_forallb : forall (P : N -> bool) seps ns,
-  forallb P seps = true -> forallb (forallb P) ns = true -> forallb P (print_more seps ns) = true.
+  forallb (forallb P) seps = true -> forallb (forallb P) ns = true -> forallb P (print_more seps ns) = true.
 Proof.
   intros P seps. induction seps as [|s seps IH]; intros ns Hs Hn; [reflexivity|].
   destruct ns as [|n ns]; [reflexivity|]. simpl in Hs, Hn.
   apply andb_prop in Hs. destruct Hs as [Hs Hss]. apply andb_prop in Hn. destruct Hn as [Hn Hns].
-  cbn [print_more forallb]. rewrite Hs. rewrite forallb_app. rewrite Hn. apply IH; assumption.
+  cbn [print_more]. rewrite !forallb_app. rewrite Hs, Hn. apply IH; assumption.
 Qed.
+
+(* the blanks between two names: not empty, white space that does not end the line *)
+Definition sep_ok (s : text) : bool := negb (is_nil s) && forallb is_iws s.
+Definition sep_ws (s : text) : bool := negb (is_nil s) && forallb is_ws s.
+
+Lemma sep_ok_ws : forall seps, forallb sep_ok seps = true -> forallb sep_ws seps = true.
+Proof.
+  intros seps. apply forallb_imp. intros s H. unfold sep_ok, sep_ws in *.
+  apply andb_prop in H. destruct H as [H1 H2]. rewrite H1. apply all_iws_ws. exact H2.
+Qed.
+
+Lemma sep_ws_all : forall seps, forallb sep_ws seps = true -> forallb (forallb is_ws) seps = true.
+Proof. intros seps. apply forallb_imp. intros s H. unfold sep_ws in H. apply andb_prop in H. apply H. Qed.
 
 Lemma split_go_nows : forall f n rest off start cur, forallb (fun c => negb (f c)) n = true ->
   split_go f (n ++ rest) off start cur = split_go f rest (off + byte_len n) start (rev n ++ cur).
@@ -256,43 +269,78 @@ Proof.
     rewrite <- app_assoc. reflexivity.
 Qed.
 
-(* the 2nd, 3rd, … name with its span: [off] is the offset of the blank before it *)
-Fixpoint more_names (off : nat) (seps : list N) (names : list text) : list (text * span) :=
+(* the 2nd, 3rd, … name with its span: [off] is the offset of the blanks before it *)
+Fixpoint more_names (off : nat) (seps : list text) (names : list text) : list (text * span) :=
   match seps, names with
   | s :: seps', n :: names' =>
-      (n, (off + len_utf8 s, off + len_utf8 s + byte_len n))
-      :: more_names (off + len_utf8 s + byte_len n) seps' names'
+      (n, (off + byte_len s, off + byte_len s + byte_len n))
+      :: more_names (off + byte_len s + byte_len n) seps' names'
   | _, _ => []
   end.
 
+Definition named (base : nat) (p : nat * text) : text * span :=
+  (snd p, (base + fst p, base + fst p + byte_len (snd p))).
+
+(* a run of blanks yields empty pieces only: they are filtered out *)
+Lemma split_ws_run : forall w rest off, forallb is_ws w = true ->
+  filter nonempty_piece (split_go is_ws (w ++ rest) off off []) =
+  filter nonempty_piece (split_go is_ws rest (off + byte_len w) (off + byte_len w) []).
+Proof.
+  induction w as [|c w IH]; intros rest off H.
+  - cbn [app byte_len]. rewrite Nat.add_0_r. reflexivity.
+  - simpl in H. apply andb_prop in H. destruct H as [Hc H].
+    cbn [app split_go]. rewrite Hc. cbn [rev filter nonempty_piece snd].
+    rewrite IH by exact H. cbn [byte_len].
+    replace (off + len_utf8 c + byte_len w) with (off + (len_utf8 c + byte_len w)) by lia. reflexivity.
+Qed.
+
+Lemma nonempty_snoc : forall (a b : text), b <> [] -> nonempty_piece (0, a ++ b) = true.
+Proof. intros a b H. unfold nonempty_piece. cbn [snd]. destruct a; [destruct b; [contradiction|reflexivity]|reflexivity]. Qed.
+
 Lemma split_names : forall base seps ns n0 off start cur,
-  nows n0 = true -> forallb nows ns = true -> forallb is_ws seps = true ->
-  map (fun p => (snd p, (base + fst p, base + fst p + byte_len (snd p))))
-      (split_go is_ws (n0 ++ print_more seps ns) off start cur) =
+  nows n0 = true -> n0 <> [] -> forallb nows ns = true -> forallb (fun n => negb (is_nil n)) ns = true ->
+  forallb sep_ws seps = true ->
+  map (named base) (filter nonempty_piece (split_go is_ws (n0 ++ print_more seps ns) off start cur)) =
   (rev cur ++ n0, (base + start, base + start + byte_len (rev cur ++ n0)))
   :: more_names (base + off + byte_len n0) seps ns.
 Proof.
-  intros base seps. induction seps as [|s seps IH]; intros ns n0 off start cur Hn0 Hns Hs.
-  - cbn [print_more more_names]. rewrite split_go_nows by exact Hn0. cbn [split_go map fst snd].
-    rewrite rev_app_distr, rev_involutive. reflexivity.
+  intros base seps. induction seps as [|s seps IH]; intros ns n0 off start cur Hn0 Hnn Hns Hne Hs.
+  - cbn [print_more more_names]. rewrite split_go_nows by exact Hn0. cbn [split_go filter].
+    rewrite rev_app_distr, rev_involutive.
+    assert (E : nonempty_piece (start, rev cur ++ n0) = true) by (apply (nonempty_snoc (rev cur) n0 Hnn)).
+    rewrite E. reflexivity.
   - destruct ns as [|n ns].
-    + cbn [print_more more_names]. rewrite split_go_nows by exact Hn0. cbn [split_go map fst snd].
-      rewrite rev_app_distr, rev_involutive. reflexivity.
-    + simpl in Hns, Hs. apply andb_prop in Hns. destruct Hns as [Hn Hns].
+    + cbn [print_more more_names]. rewrite split_go_nows by exact Hn0. cbn [split_go filter].
+      rewrite rev_app_distr, rev_involutive.
+      assert (E : nonempty_piece (start, rev cur ++ n0) = true) by (apply (nonempty_snoc (rev cur) n0 Hnn)).
+      rewrite E. reflexivity.
+    + simpl in Hns, Hs, Hne. apply andb_prop in Hns. destruct Hns as [Hn Hns].
+      apply andb_prop in Hne. destruct Hne as [Hnne Hne].
       apply andb_prop in Hs. destruct Hs as [Hs Hss].
-      cbn [print_more more_names]. rewrite split_go_nows by exact Hn0. cbn [split_go]. rewrite Hs.
-      cbn [map fst snd]. rewrite rev_app_distr, rev_involutive. f_equal.
-      rewrite IH by assumption. cbn [rev app].
-      replace (base + (off + byte_len n0 + len_utf8 s)) with (base + off + byte_len n0 + len_utf8 s) by lia.
+      unfold sep_ws in Hs. apply andb_prop in Hs. destruct Hs as [Hsn Hsw].
+      destruct s as [|c s]; [discriminate|]. simpl in Hsw. apply andb_prop in Hsw. destruct Hsw as [Hc Hsw].
+      cbn [print_more more_names]. rewrite split_go_nows by exact Hn0.
+      cbn [app split_go]. rewrite Hc. cbn [filter].
+      rewrite rev_app_distr, rev_involutive.
+      assert (E : nonempty_piece (start, rev cur ++ n0) = true) by (apply (nonempty_snoc (rev cur) n0 Hnn)).
+      rewrite E. cbn [map]. unfold named at 1. cbn [fst snd]. f_equal.
+      rewrite split_ws_run by exact Hsw.
+      assert (Hn' : n <> []) by (destruct n; [discriminate|discriminate]).
+      rewrite (IH ns n _ _ [] Hn Hn' Hns Hne Hss). cbn [rev app byte_len].
+      replace (base + (off + byte_len n0 + len_utf8 c + byte_len s))
+        with (base + off + byte_len n0 + (len_utf8 c + byte_len s)) by lia.
       reflexivity.
 Qed.
 
 Lemma declared_names_eq : forall base seps ns n0,
-  nows n0 = true -> forallb nows ns = true -> forallb is_ws seps = true ->
-  declared_names base (n0 ++ print_more seps ns) =
+  nows n0 = true -> n0 <> [] -> forallb nows ns = true -> forallb (fun n => negb (is_nil n)) ns = true ->
+  forallb sep_ws seps = true ->
+  declared_names true base (n0 ++ print_more seps ns) =
   (n0, (base, base + byte_len n0)) :: more_names (base + byte_len n0) seps ns.
 Proof.
-  intros base seps ns n0 H0 Hn Hs. unfold declared_names, split. rewrite split_names by assumption.
+  intros base seps ns n0 H0 H0n Hn Hnn Hs. unfold declared_names, split.
+  change (fun p : nat * text => (snd p, (base + fst p, base + fst p + byte_len (snd p)))) with (named base).
+  rewrite split_names by assumption.
   cbn [rev app]. replace (base + 0) with base by lia. reflexivity.
 Qed.
 
@@ -329,8 +377,8 @@ Proof.
       apply trim_end_nows; [apply ssn_nonnil; exact H0|apply ssn_nows; exact H0].
     + simpl in Hn. apply andb_prop in Hn. destruct Hn as [Hn Hns].
       cbn [print_more].
-      replace (a ++ n0 ++ (s :: n ++ print_more seps ns) ++ w)
-        with ((a ++ n0 ++ [s]) ++ n ++ print_more seps ns ++ w) by assoc_eq.
+      replace (a ++ n0 ++ (s ++ n ++ print_more seps ns) ++ w)
+        with ((a ++ n0 ++ s) ++ n ++ print_more seps ns ++ w) by assoc_eq.
       rewrite IH by assumption. assoc_eq.
 Qed.
 
@@ -380,9 +428,9 @@ Qed.
 (* ---- one declaration line ----------------------------------------------------------------------------- *)
 Lemma declare_start_states_eq : forall src e i dlen llen st errs raw,
   slice src (i + dlen) (i + llen) = Done raw ->
-  declare_start_states src e i dlen llen st errs =
+  declare_start_states src repaired e i dlen llen st errs =
     if is_nil (trim is_ws raw) then TErr errs (mk_error UnknownDeclaration i) else
-    let names := declared_names (i + dlen + byte_len (take_while is_ws raw)) (trim is_ws raw) in
+    let names := declared_names true (i + dlen + byte_len (take_while is_ws raw)) (trim is_ws raw) in
     match declare_loop e names st errs with
     | TOk st' errs' => dol k <- lift (parse_ws src (end_of names i)) holding errs'; TOk (k, st') errs'
     | TErr errs' e => TErr errs' e
@@ -394,9 +442,9 @@ Lemma parse_declaration_eq : forall src i st errs llen line0 dlen decl0,
   line_len_at src i = Done llen -> slice src i (i + llen) = Done line0 ->
   find is_ws (trim_end is_ws line0) = Some dlen ->
   slice src i (i + dlen) = Done decl0 ->
-  parse_declaration src i st errs =
-    if is_declaration 115 83 (trim_end is_ws decl0) then declare_start_states src false i dlen llen st errs
-    else if is_declaration 120 88 (trim_end is_ws decl0) then declare_start_states src true i dlen llen st errs
+  parse_declaration src repaired i st errs =
+    if is_declaration 115 83 (trim_end is_ws decl0) then declare_start_states src repaired false i dlen llen st errs
+    else if is_declaration 120 88 (trim_end is_ws decl0) then declare_start_states src repaired true i dlen llen st errs
     else TErr errs (mk_error UnknownDeclaration i).
 Proof.
   intros src i st errs llen line0 dlen decl0 H1 H2 H3 H4. unfold parse_declaration.
@@ -405,12 +453,12 @@ Qed.
 
 Lemma declare_start_states_line : forall src pre decl gap n0 seps ns trail r e st errs,
   src = pre ++ decl ++ gap ++ (n0 ++ print_more seps ns) ++ trail ++ r ->
-  forallb is_ws gap = true -> forallb is_ws seps = true -> forallb is_ws trail = true ->
+  forallb is_ws gap = true -> forallb sep_ws seps = true -> forallb is_ws trail = true ->
   length ns = length seps ->
   forallb is_start_state_name (n0 :: ns) = true ->
   nodup_b (n0 :: ns) = true ->
   (forall n, In n (n0 :: ns) -> ~ In n (map ss_name (start_states st))) ->
-  declare_start_states src e (byte_len pre) (byte_len decl)
+  declare_start_states src repaired e (byte_len pre) (byte_len decl)
     (byte_len (decl ++ gap ++ (n0 ++ print_more seps ns) ++ trail)) st errs =
   dol k <- lift (parse_ws src (byte_len pre + byte_len (decl ++ gap ++ n0 ++ print_more seps ns))) holding errs;
   TOk (k, {| rules := rules st;
@@ -435,7 +483,8 @@ Proof.
   assert (Hnn : is_nil (n0 ++ print_more seps ns) = false).
   { destruct n0; [discriminate|reflexivity]. }
   rewrite Hnn. cbv zeta.
-  rewrite declared_names_eq; [|apply ssn_nows; exact Hv0|apply all_ssn_nows; exact Hvn|exact Hsp].
+  rewrite declared_names_eq; [|apply ssn_nows; exact Hv0|apply ssn_nonnil; exact Hv0|apply all_ssn_nows; exact Hvn| |exact Hsp].
+  2:{ revert Hvn. apply forallb_imp. intros n Hn. pose proof (ssn_nonnil n Hn). destruct n; [contradiction|reflexivity]. }
   rewrite declare_loop_ok.
   - rewrite end_of_names. cbn [states_from]. rewrite states_from_more.
     replace (byte_len pre + byte_len decl + byte_len gap) with (byte_len pre + byte_len (decl ++ gap)) by blen.
@@ -476,7 +525,7 @@ Lemma parse_declaration_line : forall awc src pre dl n0 e gt r st errs,
   forallb is_start_state_name (n0 :: map fst gt) = true ->
   nodup_b (n0 :: map fst gt) = true ->
   (forall n, In n (n0 :: map fst gt) -> ~ In n (map ss_name (start_states st))) ->
-  parse_declaration src (byte_len pre) st errs =
+  parse_declaration src repaired (byte_len pre) st errs =
     dol k <- lift (parse_ws src (byte_len pre +
                      byte_len (dline_head dl ((n0, e) :: gt) ++ dline_names dl ((n0, e) :: gt)))) holding errs;
     TOk (k, {| rules := rules st;
@@ -505,7 +554,7 @@ Proof.
   - assert (Htd : trim_end is_ws ([c_percent; kw_char e up] ++ kw) = [c_percent; kw_char e up] ++ kw).
     { apply (trim_end_nows is_ws [] ([c_percent; kw_char e up] ++ kw)); [discriminate|exact Hdecl_nows]. }
     rewrite Htd. cbn [app]. destruct (is_declaration_kw e up kw Hkw) as [E1 E2]. cbn [app] in E1, E2. rewrite E1, E2.
-    assert (Hstep : declare_start_states src e (byte_len pre) (byte_len (c_percent :: kw_char e up :: kw))
+    assert (Hstep : declare_start_states src repaired e (byte_len pre) (byte_len (c_percent :: kw_char e up :: kw))
        (byte_len ((c_percent :: kw_char e up :: kw) ++ (g :: gap) ++ (n0 ++ print_more seps (map fst gt)) ++ trail)) st errs = 
        dol k <- lift (parse_ws src (byte_len pre +
                      byte_len (([c_percent; kw_char e up] ++ kw ++ g :: gap) ++ n0 ++ print_more seps (map fst gt)))) holding errs;
@@ -531,7 +580,7 @@ Proof.
         try assumption.
       - assoc. reflexivity.
       - rewrite Hs. assoc. reflexivity.
-      - apply all_iws_ws. exact Hseps.
+      - apply sep_ok_ws. exact Hseps.
       - apply all_iws_ws. exact Htrail.
       - rewrite map_length. exact Hl. }
     destruct e; cbn [negb]; exact Hstep.
@@ -541,7 +590,8 @@ Proof.
     apply no_nl_app; [|apply all_iws_no_nl; exact Htrail].
     apply no_nl_app; [apply nows_no_nl; apply ssn_nows; exact Hv0|].
     unfold no_nl. apply print_more_forallb.
-    + revert Hseps. apply forallb_imp. intros c H. rewrite (iws_not_nl c H). reflexivity.
+    + revert Hseps. apply forallb_imp. intros sp H. apply andb_prop in H. destruct H as [_ H].
+      revert H. apply forallb_imp. intros c H. rewrite (iws_not_nl c H). reflexivity.
     + revert Hvn. apply forallb_imp. intros n H. apply nows_no_nl. apply ssn_nows. exact H.
   - apply (slice_eq src pre _ (nl :: r)); [rewrite Hs; assoc; reflexivity|reflexivity|reflexivity].
   - replace (([c_percent; kw_char e up] ++ kw) ++ (g :: gap) ++ (n0 ++ print_more seps (map fst gt)) ++ trail)
@@ -562,8 +612,8 @@ Lemma loop_dline : forall awc src pre dl n0 e gt r st errs fuel,
   forallb is_start_state_name (n0 :: map fst gt) = true ->
   nodup_b (n0 :: map fst gt) = true ->
   (forall n, In n (n0 :: map fst gt) -> ~ In n (map ss_name (start_states st))) ->
-  parse_declarations_loop src awc (S (ncomments (dl_after dl) + fuel)) (byte_len pre) st errs =
-  parse_declarations_loop src awc fuel (byte_len pre + byte_len (print_dline dl ((n0, e) :: gt)))
+  parse_declarations_loop src awc repaired (S (ncomments (dl_after dl) + fuel)) (byte_len pre) st errs =
+  parse_declarations_loop src awc repaired fuel (byte_len pre + byte_len (print_dline dl ((n0, e) :: gt)))
     {| rules := rules st;
        start_states := start_states st ++
          dline_states (byte_len pre) (length (start_states st)) dl ((n0, e) :: gt) |} errs.
@@ -623,7 +673,7 @@ Proof.
   induction seps as [|s seps IH]; intros [|[n x] gt] e off id H; simpl in H; try discriminate.
   - repeat split; reflexivity.
   - assert (H' : length gt = length seps) by lia.
-    destruct (IH gt e (off + len_utf8 s + byte_len n) (S id) H') as [A [B C]].
+    destruct (IH gt e (off + byte_len s + byte_len n) (S id) H') as [A [B C]].
     cbn [map fst snd more_states ss_name ss_id ss_exclusive length seq forallb].
     rewrite A, B. repeat split; try reflexivity.
     intros Hk. apply andb_prop in Hk. destruct Hk as [Hx Hk]. apply eqb_prop in Hx. subst x.
@@ -682,8 +732,8 @@ Lemma loop_dlines : forall awc dls sts src pre r st errs fuel,
   forallb is_start_state_name (map fst sts) = true ->
   nodup_b (map fst sts) = true ->
   (forall n, In n (map fst sts) -> ~ In n (map ss_name (start_states st))) ->
-  parse_declarations_loop src awc (need_dlines dls + fuel) (byte_len pre) st errs =
-  parse_declarations_loop src awc fuel (byte_len pre + byte_len (print_dlines dls sts))
+  parse_declarations_loop src awc repaired (need_dlines dls + fuel) (byte_len pre) st errs =
+  parse_declarations_loop src awc repaired fuel (byte_len pre + byte_len (print_dlines dls sts))
     {| rules := rules st;
        start_states := start_states st ++ states_of (byte_len pre) (length (start_states st)) dls sts |} errs.
 Proof.
